@@ -1,4 +1,9 @@
-"""C01 -- locating a rendered emulsion returns each droplet once, with exact volume and half-cell centre."""
+"""C01 -- locating a rendered emulsion returns each droplet once, with exact volume and half-cell centre.
+
+Cylindrical grids: besides one on-axis droplet (Proofs/C01Cyl.v, C01CylPer.v) the theorems cover an emulsion of on-axis
+droplets separated along z on non-periodic and periodic cylinders, with the oracle labelling and end to end
+(Proofs/C01CylMulti.v: C01_cylindrical_emulsion, C01_cylindrical_periodic_emulsion and their _end_to_end variants).
+"""
 from __future__ import annotations
 
 import itertools
@@ -229,7 +234,7 @@ def oracle_cyl(grid, drops, mask, em):
 
 def check(ctx: vlib.Ctx) -> int:
     rng = random.Random(ctx.seed)
-    ok = vlib.prove(ctx, ["Proofs/C01.vo", "Proofs/LabelClients.vo", "Proofs/C01Cyl.vo", "Proofs/C01CylPer.vo", "Proofs/C01Multi.vo", "Proofs/BallCount.vo",
+    ok = vlib.prove(ctx, ["Proofs/C01.vo", "Proofs/LabelClients.vo", "Proofs/C01Cyl.vo", "Proofs/C01CylPer.vo", "Proofs/C01Multi.vo", "Proofs/C01CylMulti.vo", "Proofs/BallCount.vo",
                           "Model/LocateCases.vo"], gens=[])
     # R-layer part (separation => located spheres do not overlap), over the generated radius_from_volume
     ok = vlib.prove(ctx, ["Proofs/C01Sep.vo"], prop_file="Properties/C01R.v", gens=["Gen_spherical"]) and ok
